@@ -518,11 +518,13 @@ int World::execute()
 
 World::~World()
 {
+	g_muted = true;
 	net.reset();
 	timers.clear();
 	nodes.clear();
 	sim.reset();
 	cfg.reset();
+	g_muted = false;
 	if (!pcap_path.empty())
 	{
 		// the capture is complete once the simulation (and its pcap object) is gone
